@@ -55,7 +55,7 @@ fn main() {
         "WrappedWrite::send is outside the quantifier and never judged".into(),
     ];
 
-    check.run_prop("primitive", 16, tier.pick(2_000, 40_000), sc::c11_prim, guard("C11", sc::run_c11_prim));
-    check.run_prop("composite", 16, tier.pick(150, 3_000), sc::c11_comp, guard("C11", sc::run_c11_comp));
+    check.run_prop("primitive", 16, tier.pick(2_000, 400_000), sc::c11_prim, guard("C11", sc::run_c11_prim));
+    check.run_prop("composite", 16, tier.pick(300, 40_000), sc::c11_comp, guard("C11", sc::run_c11_comp));
     check.finish();
 }
